@@ -111,6 +111,62 @@ def replay_add(m, n0):
     return native.record("C17", "add_value_atomic", {"expected": "ERR-UNCHANGED for every failing value", "mismatches": bad[:6]}, bool(bad))
 
 
+# ---------------------------------------------------------------------------------------------------- the special empty value
+RESULT_RS = "scylla-cql-core/src/frame/response/result.rs"
+NOT_EMPTIABLE_NATIVES = ("Counter", "Duration")          # ScyllaDB refuses a 0-byte value for these (and for collections / UDTs); every other native type has one
+NOT_EMPTIABLE_KINDS = ("Collection", "UserDefinedType")
+
+
+def empty_support(ctx, core, reg):
+    """`MaybeEmpty<T>` and `CqlValue::Empty` are bound to a column only if `ColumnType::supports_special_empty_value` says so.  The column type is symbolic: ANY variant of
+    ColumnType and, inside Native, ANY native type."""
+    name = "c17_empty_value_is_accepted_exactly_for_the_column_types_that_have_one"
+    if ctx.skip(name):
+        return
+    ct, nt = reg.get("ColumnType"), reg.get("NativeType")
+    fn = core.find(r"result\.rs[^>]*>::supports_special_empty_value\(_1: &ColumnType")
+    kind, nat = z3.BitVec("column_type_variant", 64), z3.BitVec("native_type", 64)
+    kinds, nats = [v[1] for v in ct.variants], [v[1] for v in nt.variants]
+    pre = [z3.Or([kind == k for k in kinds]), z3.Or([nat == n for n in nats])]
+    payloads = {}
+    for vname, d, fields in ct.variants:
+        payloads[d] = Tup([Enum(Int(nat, 64, True), {}, nt.variant_map(), nt.name)]) if vname == "Native" else Tup([Opaque(f"{vname}.{f}") for f in fields])
+    typ = Enum(Int(kind, 64, True), payloads, ct.variant_map(), ct.name)
+    it = mir.Interp(core, mir.BVBackend(), {}, registry=reg, max_steps=4000)
+    paths = it.run(fn, [Ref(Cell(typ))], pre)
+    refused = z3.Or([z3.And(kind == ct.discr("Native"), nat == nt.discr(n)) for n in NOT_EMPTIABLE_NATIVES] + [kind == ct.discr(k) for k in NOT_EMPTIABLE_KINDS])
+    goals, cover = [], []
+    for p in paths:
+        pc = z3.And(p.pc[len(pre):]) if len(p.pc) > len(pre) else z3.BoolVal(True)
+        if p.outcome[0] != "return":
+            goals.append(z3.Not(pc)); continue
+        cover.append(pc)
+        r = p.outcome[1]
+        goals.append(z3.Implies(pc, r.t == z3.Not(refused)))
+    goals.append(z3.Or(cover) if cover else z3.BoolVal(False))
+    ctx.prove(name, pre, z3.And(goals), inputs=[kind, nat],
+              functions=f"ColumnType::supports_special_empty_value [{RESULT_RS}] — the gate of <MaybeEmpty<T> as SerializeValue>::serialize and of CqlValue::Empty in serialize_cql_value",
+              bounds=f"the column type is ANY of the {len(kinds)} ColumnType variants and, for Native, ANY of the {len(nats)} native types (both discriminants symbolic; variant lists read from "
+                     "the current source): the empty value is refused for counter, duration, every collection and every UDT and accepted for everything else; no panic",
+              backend="BV", assumes="reference table: ScyllaDB's set of types without an empty value (counter, duration, collections, UDTs), as the function's documentation states it",
+              witness=True, outside="the callers' own two-line use of the answer (replayed natively through MaybeEmpty / CqlValue::Empty for a counterexample); Cassandra's larger refusal set",
+              replay=lambda m: replay_empty(m, ct, nt))
+
+
+def replay_empty(m, ct, nt):
+    from . import native
+    k, n = int(m.get("column_type_variant") or 0), int(m.get("native_type") or 0)
+    kname = next((v[0] for v in ct.variants if v[1] == k), "Native")
+    nname = next((v[0] for v in nt.variants if v[1] == n), "Int")
+    what = nname if kname == "Native" else kname
+    want = "REFUSED" if (what in NOT_EMPTIABLE_NATIVES or what in NOT_EMPTIABLE_KINDS) else "ACCEPTED"
+    nat = native.Native("core")
+    got = nat.ask(f"emptyval {what}")
+    nat.close()
+    return native.record("C17", "empty_value", {"column_type": what, "expected": f"maybe_empty={want} cql_value={want}", "native": got},
+                         got != f"maybe_empty={want} cql_value={want}")
+
+
 def run(tier, seed, only):
     ctx = oblig.Ctx(tier, only)
     try:
@@ -125,4 +181,11 @@ def run(tier, seed, only):
             ctx.add(name=f"smt:c17_translate_add_value_{n0}_{nj}", engine="smt:mir2smt", status="inconclusive", reason="translator rejected the current source: " + str(e), functions=FILE)
         except (AttributeError, KeyError, IndexError, TypeError, ValueError) as e:
             ctx.add(name=f"smt:c17_translate_add_value_{n0}_{nj}", engine="smt:mir2smt", status="inconclusive", reason=f"translator failed on the current source ({type(e).__name__}: {e})", functions=FILE)
+    try:
+        reg = rustenum.Registry(["/repo/" + RESULT_RS])
+        empty_support(ctx, core, reg)
+    except mir.Unsupported as e:
+        ctx.add(name="smt:c17_translate_empty_support", engine="smt:mir2smt", status="inconclusive", reason="translator rejected the current source: " + str(e), functions=RESULT_RS)
+    except (AttributeError, KeyError, IndexError, TypeError, ValueError) as e:
+        ctx.add(name="smt:c17_translate_empty_support", engine="smt:mir2smt", status="inconclusive", reason=f"translator failed on the current source ({type(e).__name__}: {e})", functions=RESULT_RS)
     return ctx.results
